@@ -24,6 +24,12 @@ pub fn misc_div_valuation(s: &mut Src) -> R {
     let mut z = G::new(p, q);
     for _ in 0..k2 { z = &z * &cc; }
     ob!(div_vec(&SpVec::from(vec![z]), &cc) == Some(k2 as i32), "div::exact-valuation(Z[i])");
+    // vectors: the minimum over the non-zero entries
+    let (k3, u3) = (s.small(0, 20) as u32, s.small(-1000, 1000));
+    pre!(u3 != 0 && u3 % c != 0);
+    let b = u3 * c.pow(k3);
+    ob!(div_vec(&SpVec::from(vec![a, 0, b]), &c) == Some(k.min(k3) as i32), "div_vec::min-over-non-zero-entries");
+    ob!(div_vec(&SpVec::from(vec![0, b, 0, a]), &c) == Some(k.min(k3) as i32), "div_vec::order-independent");
     Ok(())
 }
 crate::harness_table!(MISC: misc_div_valuation [unwind 24]);
